@@ -479,6 +479,10 @@ class ExprMixin:
     # -- attributes -------------------------------------------------------------------
     def e_Attribute(self, node, fr):
         base = self.eval(node.value, fr)
+        if node.attr == 'native' and isinstance(base, Sym) and base.op == 'call' and base.args and 'load' in show(base.args[0]):
+            # asn1crypto decodes lazily: .native of the object returned by load() walks the whole structure and raises
+            # ValueError (malformed / short encoding) or KeyError (ENUMERATED value outside the schema map)
+            self.risk(fr, 'ext:.native', ('builtins.ValueError', 'builtins.KeyError'), base, node)
         return self.getattr_v(base, node.attr, fr, node)
 
     def class_attr(self, cinfo, attr, recv, fr):
